@@ -6,6 +6,7 @@ import (
 	"sort"
 	"strings"
 	"testing"
+	"time"
 
 	clientpb "github.com/google/certificate-transparency-go/client/configpb"
 
@@ -29,6 +30,10 @@ type WindowCase struct {
 	Probes []Inst
 	Chain  ChainKind
 	Zones  Zones
+	// Expiry policy of the log, combined with the window: 0 none, 1 reject_expired, 2 reject_unexpired.
+	Expiry int
+	// Now is the validator's current time on the direct path (the Instance path runs on the real clock).
+	Now Inst
 	// ViaInstance also submits through a ctfe.Instance configured with the window.
 	ViaInstance bool
 }
@@ -74,32 +79,122 @@ func genWindow(t *rapid.T) WindowCase {
 		c.Probes = append(c.Probes, genProbe(t, fmt.Sprintf("p%d", i), c.W.bounds()))
 	}
 	c.ViaInstance = rapid.IntRange(0, 2).Draw(t, "inst") != 0
+	if e := rapid.IntRange(0, 3).Draw(t, "expiry"); e > 1 {
+		c.Expiry = e - 1
+	}
+	c.Now = genNow(t, c.W.bounds(), c.Probes)
 	return c
 }
 
+// Policy is the log's expiry policy as seen by the oracle: which flag is set, what "now" is, and
+// how far (seconds) NotAfter must be from now before the oracle relies on the expiry verdict.
+type Policy struct {
+	Expiry int
+	Now    Inst
+	Margin int64
+}
+
+// expect gives the oracle's demands for NotAfter = s under window w and policy p. The window
+// predicate decides on its own: outside is always refused. Inside, the expiry policy may only
+// remove admissions; where it clearly has no objection (NotAfter more than Margin away from now on
+// the permitted side) the certificate must be admitted. How the policy treats NotAfter next to now
+// is not this property's business.
+func expect(w Window, s Inst, p Policy) (mustAdmit, mustRefuse bool) {
+	if !inside(w, s) {
+		return false, true
+	}
+	switch p.Expiry {
+	case 0:
+		return true, false
+	case 1: // reject_expired: fine when the certificate clearly expires in the future
+		return cmp(s, add(p.Now, p.Margin, 0)) > 0, false
+	default: // reject_unexpired: fine when the certificate clearly expired in the past
+		return cmp(s, add(p.Now, -p.Margin, 0)) < 0, false
+	}
+}
+
+func (p Policy) String() string {
+	switch p.Expiry {
+	case 1:
+		return fmt.Sprintf(" with reject_expired, now=%v", p.Now)
+	case 2:
+		return fmt.Sprintf(" with reject_unexpired, now=%v", p.Now)
+	}
+	return ""
+}
+
+func logConfig(w Window, expiry int) *configpb.LogConfig {
+	return &configpb.LogConfig{LogId: 6962, Prefix: "log", PrivateKey: ctfex.PrivKeyAny(keys.Pick("p256", 1)), NotAfterStart: ts(w.Start), NotAfterLimit: ts(w.Limit),
+		RejectExpired: expiry == 1, RejectUnexpired: expiry == 2}
+}
+
 // windowOpts runs the configured window through the front end's own configuration path:
-// LogConfig timestamps -> ValidateLogConfig -> NewCertValidationOpts.
-func windowOpts(w Window) (ctfe.CertValidationOpts, error) {
-	cfg := &configpb.LogConfig{LogId: 6962, Prefix: "log", PrivateKey: ctfex.PrivKeyAny(keys.Pick("p256", 1)), NotAfterStart: ts(w.Start), NotAfterLimit: ts(w.Limit)}
-	vc, err := ctfe.ValidateLogConfig(cfg)
+// LogConfig timestamps and flags -> ValidateLogConfig -> NewCertValidationOpts.
+func windowOpts(w Window, p Policy) (ctfe.CertValidationOpts, error) {
+	vc, err := ctfe.ValidateLogConfig(logConfig(w, p.Expiry))
 	if err != nil {
 		return ctfe.CertValidationOpts{}, err
 	}
-	return ctfe.NewCertValidationOpts(roots(), pkiNow, vc.Config.RejectExpired, vc.Config.RejectUnexpired, vc.NotAfterStart, vc.NotAfterLimit, vc.Config.AcceptOnlyCa, vc.KeyUsages), nil
+	now := pkiNow
+	if p.Expiry != 0 {
+		now = p.Now.Time()
+	}
+	return ctfe.NewCertValidationOpts(roots(), now, vc.Config.RejectExpired, vc.Config.RejectUnexpired, vc.NotAfterStart, vc.NotAfterLimit, vc.Config.AcceptOnlyCa, vc.KeyUsages), nil
 }
 
-// judgeValidate checks ValidateChain under w for a leaf expiring at the whole second s.
-func judgeValidate(v *harness.Verdict, opts ctfe.CertValidationOpts, w Window, s Inst, k ChainKind, ctx string) (admitted bool) {
+// judgeValidate checks ValidateChain under w (and policy p) for a leaf expiring at the whole second s.
+func judgeValidate(v *harness.Verdict, opts ctfe.CertValidationOpts, w Window, s Inst, k ChainKind, ctx string, p Policy) (admitted bool) {
 	ch := chainFor(s.S, k)
 	_, err := ctfe.ValidateChain(ch.ders, opts)
-	want := inside(w, s)
+	mustAdmit, mustRefuse := expect(w, s, p)
 	switch {
-	case want && err != nil:
-		v.Failf("ctfe-refuses-inside", "%sValidateChain refuses NotAfter %v under window %v (start <= t < limit holds): %v", ctx, s, w, err)
-	case !want && err == nil:
-		v.Failf("ctfe-admits-outside", "%sValidateChain admits NotAfter %v under window %v (start <= t < limit does not hold)", ctx, s, w)
+	case mustAdmit && err != nil:
+		v.Failf("ctfe-refuses-inside", "%sValidateChain refuses NotAfter %v under window %v%v (start <= t < limit holds): %v", ctx, s, w, p, err)
+	case mustRefuse && err == nil:
+		sig := "ctfe-admits-outside"
+		if p.Expiry != 0 {
+			sig = "ctfe-admits-outside-under-expiry-policy"
+		}
+		v.Failf(sig, "%sValidateChain admits NotAfter %v under window %v%v (start <= t < limit does not hold)", ctx, s, w, p)
+	}
+	if p.Expiry != 0 {
+		switch {
+		case mustRefuse:
+			v.Class("expiry:outside-window")
+		case mustAdmit:
+			v.Class("expiry:inside-policy-silent")
+		case err != nil:
+			v.Class("expiry:inside-policy-removes")
+		default:
+			v.Class("expiry:inside-near-now")
+		}
 	}
 	return err == nil
+}
+
+// genNow draws the validator's clock: next to a bound or a probed instant, clearly after / before
+// all of them (a log whose window lies wholly in the past or future), or anywhere.
+func genNow(t *rapid.T, bounds, probes []Inst) Inst {
+	all := append(append([]Inst{}, bounds...), probes...)
+	lo, hi := all[0], all[0]
+	for _, x := range all {
+		if cmp(x, lo) < 0 {
+			lo = x
+		}
+		if cmp(x, hi) > 0 {
+			hi = x
+		}
+	}
+	switch rapid.IntRange(0, 5).Draw(t, "now.k") {
+	case 0, 1:
+		return add(hi, rapid.Int64Range(2, 86400*365*5).Draw(t, "now.after"), 0)
+	case 2:
+		return add(lo, -rapid.Int64Range(2, 86400*365*5).Draw(t, "now.before"), 0)
+	case 3:
+		return genBase(t, "now.abs")
+	default:
+		return genProbe(t, "now", all)
+	}
 }
 
 func shardCfg(i int, w Window) *clientpb.LogShardConfig {
@@ -219,7 +314,18 @@ func checkWindow(t *testing.T, c WindowCase) (v harness.Verdict) {
 	}
 
 	// (1) front end, direct
-	opts, err := windowOpts(w)
+	pol := Policy{Expiry: c.Expiry, Now: c.Now, Margin: 1}
+	// the Instance validates against the real clock: the oracle only relies on the expiry verdict
+	// for certificates expiring more than two days away from it
+	real := time.Now()
+	instPol := Policy{Expiry: c.Expiry, Now: Inst{S: real.Unix(), N: int32(real.Nanosecond())}, Margin: 2 * 86400}
+	switch c.Expiry {
+	case 1:
+		v.Class("policy:reject-expired")
+	case 2:
+		v.Class("policy:reject-unexpired")
+	}
+	opts, err := windowOpts(w, pol)
 	if err != nil {
 		v.Failf("ctfe-valid-window-refused", "ValidateLogConfig refuses window %v: %v", w, err)
 		return v
@@ -231,6 +337,7 @@ func checkWindow(t *testing.T, c WindowCase) (v harness.Verdict) {
 		be = reflog.New(6962, 1)
 		inst, err = ctfex.New(ctfex.Opts{LogKey: keys.Pick("p256", 1), Roots: world.Roots(), Backend: be, Cfg: func(lc *configpb.LogConfig) {
 			lc.NotAfterStart, lc.NotAfterLimit = ts(w.Start), ts(w.Limit)
+			lc.RejectExpired, lc.RejectUnexpired = c.Expiry == 1, c.Expiry == 2
 		}})
 		if err != nil {
 			v.Failf("ctfe-valid-window-refused", "instance set-up refuses window %v: %v", w, err)
@@ -301,18 +408,29 @@ func checkWindow(t *testing.T, c WindowCase) (v harness.Verdict) {
 			if nearBound(w, s) {
 				v.Class("ctfe:near-bound")
 			}
-			judgeValidate(&v, opts, w, s, c.Chain, "")
+			judgeValidate(&v, opts, w, s, c.Chain, "", pol)
 			if inst != nil {
 				ch := chainFor(s.S, c.Chain)
 				before := len(be.CallsOf("QueueLeaf"))
 				rsp := inst.Post(addPath(c.Chain), addChainBody(ch.ders))
 				queued := len(be.CallsOf("QueueLeaf")) - before
-				if inside(w, s) {
-					if rsp.Status != 200 || queued != 1 {
-						v.Failf("ctfe-refuses-inside", "%s of NotAfter %v under window %v: status %d (%s), %d QueueLeaf calls; start <= t < limit holds", addPath(c.Chain), s, w, rsp.Status, strings.TrimSpace(string(rsp.Body)), queued)
+				mustAdmit, mustRefuse := expect(w, s, instPol)
+				if mustAdmit && (rsp.Status != 200 || queued != 1) {
+					v.Failf("ctfe-refuses-inside", "%s of NotAfter %v under window %v%v: status %d (%s), %d QueueLeaf calls; start <= t < limit holds", addPath(c.Chain), s, w, instPol, rsp.Status, strings.TrimSpace(string(rsp.Body)), queued)
+				}
+				if mustRefuse && (rsp.Status < 400 || rsp.Status > 499 || queued != 0) {
+					sig := "ctfe-admits-outside"
+					if c.Expiry != 0 {
+						sig = "ctfe-admits-outside-under-expiry-policy"
 					}
-				} else if rsp.Status < 400 || rsp.Status > 499 || queued != 0 {
-					v.Failf("ctfe-admits-outside", "%s of NotAfter %v under window %v: status %d, %d QueueLeaf calls; start <= t < limit does not hold", addPath(c.Chain), s, w, rsp.Status, queued)
+					v.Failf(sig, "%s of NotAfter %v under window %v%v: status %d, %d QueueLeaf calls; start <= t < limit does not hold", addPath(c.Chain), s, w, instPol, rsp.Status, queued)
+				}
+				if c.Expiry != 0 && !mustRefuse {
+					if mustAdmit {
+						v.Class("expiry:instance-inside-policy-silent")
+					} else {
+						v.Class("expiry:instance-inside-policy-may-remove")
+					}
 				}
 			}
 		}
